@@ -1,0 +1,9 @@
+//go:build !verif
+
+package loom
+
+import "unsafe"
+
+// verifYield is a scheduling point for the verification harness (build tag `verif`).
+// Without the tag it is an empty function that the compiler inlines away.
+func verifYield(site int, p unsafe.Pointer) {}
